@@ -11,16 +11,20 @@
 (*            filter |-> set of ids the --filter regex selects or "all"]   *)
 (*   lglob : "none" | "extra" (files .mjsx are JavaScript) | "override"    *)
 (*           (.py, an extension a built-in language owns, is JavaScript)   *)
+(*           | "narrow": files named x.view.ts are Tsx, other .ts files    *)
+(*           TypeScript (a glob narrower than an extension)                *)
 (* Paths, their languages and the glob truth table are fixed constants,    *)
 (* written by hand from the glob documentation (not computed by globset).  *)
 (***************************************************************************)
 EXTENDS Naturals, Sequences, FiniteSets, TLC
 
-Paths == {"a.js", "src/a.js", "src/sub/b.js", "test/c.js", "src/x.ts", "lib/y.py", "src/w.mjsx", "README.md"}
+Paths == {"a.js", "src/a.js", "src/sub/b.js", "test/c.js", "src/x.ts", "src/p.view.ts", "lib/y.py", "src/w.mjsx", "README.md"}
 
 LangOf(p, lglob) ==
     CASE p \in {"a.js", "src/a.js", "src/sub/b.js", "test/c.js"} -> "JavaScript"
       [] p = "src/x.ts" -> "TypeScript"
+      \* a glob narrower than an extension tells files of one extension apart
+      [] p = "src/p.view.ts" -> IF lglob = "narrow" THEN "Tsx" ELSE "TypeScript"
       \* languageGlobs of the project win over the built-in extension table
       [] p = "lib/y.py" -> IF lglob = "override" THEN "JavaScript" ELSE "Python"
       [] p = "src/w.mjsx" -> IF lglob = "extra" THEN "JavaScript" ELSE "none"
@@ -28,7 +32,7 @@ LangOf(p, lglob) ==
 
 Globs == {"src/**", "**/sub/**", "test/**", "**/*.js", "src/a.js", "lib/**"}
 GlobMatch(g, p) ==
-    CASE g = "src/**"    -> p \in {"src/a.js", "src/sub/b.js", "src/x.ts", "src/w.mjsx"}
+    CASE g = "src/**"    -> p \in {"src/a.js", "src/sub/b.js", "src/x.ts", "src/p.view.ts", "src/w.mjsx"}
       [] g = "**/sub/**" -> p = "src/sub/b.js"
       [] g = "test/**"   -> p = "test/c.js"
       [] g = "**/*.js"   -> p \in {"a.js", "src/a.js", "src/sub/b.js", "test/c.js"}
